@@ -105,7 +105,8 @@ def build_electric_component(d):
     if cls == "fuelcell":
         fc = d.get("fc", {})
         nmod = int(fc.get("modules", 1))
-        module = FuelCell(name=name + "_mod", rated_power=F(Fraction(d["rated"]) / nmod),
+        # fc["stack_factor"]: the stack (modules x module rating) sized unlike the converter that rates the system
+        module = FuelCell(name=name + "_mod", rated_power=F(Fraction(d["rated"]) * Fraction(fc.get("stack_factor", 1)) / nmod),
                           eff_curve=curve(fc.get("eff", [[0.1, 0.6], [0.5, 0.55], [1.0, 0.45]])),
                           fuel_type=fuel_enum(fc.get("fuel", "HYDROGEN")),
                           fuel_origin=origin_enum(fc.get("origin", "RENEWABLE_NON_BIO")))
